@@ -381,7 +381,7 @@ func (h *harness) genStream(n int) {
 	sessions := h.kind != KindOnDisk
 	switch h.focus {
 	case "sessions":
-		w = []int{30, 16, 12, 10, 4, 2, 4, 3, 1}
+		w = []int{34, 16, 13, 6, 3, 2, 4, 3, 1}
 	case "membership":
 		w = []int{6, 3, 2, 2, 1, 0, 4, 3, 30}
 	default: // snapshot
